@@ -80,6 +80,8 @@ structure Fusion (K : Type) where
   backwards : List (Nat × Nat)
   /-- private-input slots: set before execution, no defining op (repo fix for finding F13) -/
   inputs : List Nat
+  /-- number of ops writing each slot (repo fix for finding F3) -/
+  writers : List (Nat × Nat)
 
 section
 variable {K : Type}
@@ -101,21 +103,28 @@ def Fusion.isBackwards (f : Fusion K) (idx out : Nat) : Bool :=
   | some i => decide (i < idx)
   | none => false
 def Fusion.insertDef (f : Fusion K) (w idx : Nat) (d : OpDef K) : Fusion K :=
+  let f := { f with writers := bump f.writers w }
   if f.isConst w then f else { f with defs := (w, (idx, d)) :: f.defs }
 def Fusion.trackBackwards (f : Fusion K) (idx out computed : Nat) : Fusion K :=
   if f.isBackwards idx out then
     ({ f with backwards := (computed, idx) :: f.backwards }).insertDef computed idx .other
   else f
 
-/-- `scan_use_counts`: hint inputs are not counted. -/
+/-- `scan_use_counts`. A Horner step's accumulator (`intermediate_out`) and a hint's inputs
+are uses as well (repo fix for finding F3: a product read only through one of them was fused
+away although the fused row does not constrain it). -/
 def scanUseCounts (ops : Array (Op K)) : List (Nat × Nat) :=
   ops.foldl (fun m op =>
     match op with
-    | .alu _ a b c _ _ =>
+    | .alu k a b c _ io =>
       let m := bump (bump m a) b
-      match c with
-      | some c => bump m c
-      | none => m
+      let m := match c with
+        | some c => bump m c
+        | none => m
+      match k, io with
+      | .horner, some acc => bump m acc
+      | _, _ => m
+    | .hint ins _ _ => ins.foldl bump m
     | .npo ins _ _ _ => ins.flatten.foldl bump m
     | _ => m) []
 
@@ -124,7 +133,7 @@ def scanDefs (f : Fusion K) (ops : Array (Op K)) : Fusion K :=
   (ops.toList.zipIdx).foldl (fun f (p : Op K × Nat) =>
     let idx := p.2
     match p.1 with
-    | .const out v => { f with defs := (out, (idx, .const v)) :: f.defs }
+    | .const out v => { f with defs := (out, (idx, .const v)) :: f.defs, writers := bump f.writers out }
     | .alu .mul a b none out _ => (f.trackBackwards idx out b).insertDef out idx (.mul a b)
     | .alu .add _ b none out _ => (f.trackBackwards idx out b).insertDef out idx .other
     | .alu _ _ _ _ out _ => f.insertDef out idx .other
@@ -133,7 +142,7 @@ def scanDefs (f : Fusion K) (ops : Array (Op K)) : Fusion K :=
     | .hint _ outs _ => outs.foldl (fun f w => f.insertDef w idx .other) f) f
 
 def Fusion.new (ops : Array (Op K)) (inputs : List Nat) : Fusion K :=
-  scanDefs { useCounts := scanUseCounts ops, defs := [], backwards := [], inputs := inputs } ops
+  scanDefs { useCounts := scanUseCounts ops, defs := [], backwards := [], inputs := inputs, writers := [] } ops
 
 /-- A fusion candidate: position of the mul, the fused op, the addend. -/
 structure Cand (K : Type) where
@@ -148,6 +157,7 @@ def Fusion.tryFuse (f : Fusion K) (mulResult addend out addIdx : Nat) : Option (
   match f.defs.lookup mulResult with
   | some (mulIdx, .mul ma mb) =>
     if f.uses mulResult ≠ 1 || f.isConst mulResult then none
+    else if (f.writers.lookup mulResult).getD 0 ≠ 1 || f.inputs.contains mulResult then none
     else if (match f.defIdx addend with | some i => decide (i ≥ addIdx) | none => false) then none
     else if (match f.backwards.lookup addend with | some i => decide (i ≥ mulIdx) | none => false) then none
     else if (match f.defIdx mb with | some i => decide (i ≥ mulIdx) | none => false) then none
